@@ -190,6 +190,34 @@ let handle () : string =
     (match api_encode_rdflib_grouped cls o sinks with
      | Err _ -> "ERRNEW"
      | Ok (s, evs) -> ptevs evs ^ " " ^ pstream_end s)
+  | "FL" ->   (* flat_stream_to_frames, generic *)
+    let has = next_bool () in
+    let (_, _, o) = next_config () in
+    let stmts = next_stmts () in
+    let (evs, so) = flat_stream_to_frames (if has then Some o else None) stmts in
+    ptevs evs ^ (match so with Some s -> " " ^ pstream_end s | None -> " | none")
+  | "FLR" ->  (* flat_stream_to_frames, rdflib *)
+    let has = next_bool () in
+    let (_, _, o) = next_config () in
+    let d = next_rdata () in
+    let (evs, so) = rdf_flat_stream_to_frames (if has then Some o else None) d in
+    ptevs evs ^ (match so with Some s -> " " ^ pstream_end s | None -> " | none")
+  | "GR" ->   (* grouped_stream_to_frames, generic *)
+    let has = next_bool () in
+    let (_, _, o) = next_config () in
+    let k = next_int () in
+    let sinks = repeat k next_sdata in
+    (match api_grouped_generic (if has then Some o else None) sinks with
+     | Err _ -> "ERRNEW"
+     | Ok (s, evs) -> ptevs evs ^ " " ^ pstream_end s)
+  | "GRR" ->  (* grouped_stream_to_frames, rdflib *)
+    let has = next_bool () in
+    let (_, _, o) = next_config () in
+    let k = next_int () in
+    let sinks = repeat k next_rdata in
+    (match api_grouped_rdflib (if has then Some o else None) sinks with
+     | Err _ -> "ERRNEW"
+     | Ok (s, evs) -> ptevs evs ^ " " ^ pstream_end s)
   | "EG" ->
     let (cls, ig, o) = next_config () in
     let k = next_int () in
